@@ -162,6 +162,12 @@ def binop(fr, op, l, r, node):
                 return ANeg(a) if _nonzero(fr, a) else I.opaque("negation of an abstract int that may be zero")
             return a
         raise Abort(f"arithmetic on a negative abstract int at {fr.fi.module.relpath}:{node.lineno}")
+    if isinstance(l, APop) and not is_abs(r) and ((isinstance(op, ast.Mod) and r == 2) or (isinstance(op, ast.BitAnd) and r == 1)):
+        # the parity of a population count is the xor of the counted bits — exact in the GF(2) domain
+        acc = ZERO
+        for b in l.forms:
+            acc = acc ^ b
+        return AInt([acc])
     if isinstance(op, ast.MatMult):
         v = matvec(fr, l, r)
         if v is not None:
@@ -1606,6 +1612,38 @@ def b_opaque(name):
     return f
 
 
+def b_minmax(which):
+    """min / max of an abstract integer of known width and a constant: exact where the constant lies outside the integer's range
+    or cuts off exactly one extreme value (a saturating clamp), which is decided as an equality (the true branch learns it)"""
+    generic = b_opaque(which)
+
+    def f(fr, args, kw, n):
+        if len(args) == 2 and not kw:
+            a, b = args
+            x, c = (a, b) if isinstance(a, AInt) else (b, a)
+            if isinstance(x, AInt) and x.ext is None and x.bits and isinstance(c, int) and not isinstance(c, bool):
+                w = len(x.bits)
+                lo, hi = (-(1 << (w - 1)), (1 << (w - 1)) - 1) if getattr(x, "signed", False) else (0, (1 << w) - 1)
+                pat = lambda v: v & ((1 << w) - 1)       # the two's-complement digit pattern of a value in range
+                if which == "min":
+                    if c >= hi:
+                        return x
+                    if c <= lo:
+                        return c
+                    if c == hi - 1:
+                        return c if fr.I.decide_eq(x.msb_first(w), pat(hi), "min") else x
+                else:
+                    if c <= lo:
+                        return x
+                    if c >= hi:
+                        return c
+                    if c == lo + 1:
+                        return c if fr.I.decide_eq(x.msb_first(w), pat(lo), "max") else x
+                raise Abort(f"{which}() of an abstract integer and a constant inside its range")
+        return generic(fr, args, kw, n)
+    return f
+
+
 def b_type(fr, args, kw, n):
     v = args[0]
     if isinstance(v, AObj):
@@ -1669,7 +1707,7 @@ BUILTIN_NAMES = {
     "len": b_len, "isinstance": b_isinstance, "int": b_int, "bool": b_bool, "bytes": b_bytes,
     "bytearray": b_bytearray, "list": b_list, "tuple": b_tuple, "range": b_range, "enumerate": b_enumerate,
     "zip": b_zip, "reversed": b_reversed, "print": b_print, "hasattr": b_hasattr, "divmod": b_divmod,
-    "sum": b_sum, "type": b_type, "str": b_str, "repr": b_str, "min": b_opaque("min"), "max": b_opaque("max"),
+    "sum": b_sum, "type": b_type, "str": b_str, "repr": b_str, "min": b_minmax("min"), "max": b_minmax("max"),
     "abs": lambda fr, args, kw, n: (fin_lift(abs, args[0]) if isinstance(args[0], AFin) else (args[0].mag if isinstance(args[0], ANeg) else (args[0] if isinstance(args[0], AInt) else b_opaque("abs")(fr, args, kw, n)))), "sorted": b_opaque("sorted"), "float": b_opaque("float"), "round": b_opaque("round"),
     "set": b_list, "frozenset": b_list, "any": b_any, "all": b_all, "dict": None,
 }
